@@ -12,7 +12,10 @@
 //     check and its callback), and stress loops aimed at the methods whose extracted lock
 //     structure differs from the expected one;
 //  4. the same loads through ociserver + ociclient and everything above run in a child process
-//     with the race detector's reports written to files (CRace: number of reports).
+//     with the race detector's reports written to files (CRace: number of reports);
+//  5. cold starts (cold.go): fresh -race processes whose very first library calls are issued by
+//     several goroutines at once, directly on ocimem and through ociserver (CCold: the number
+//     of reports of each).
 package main
 
 import (
@@ -821,6 +824,9 @@ func child(cfg *hx.Config, changed []string) {
 }
 
 func main() {
+	if coldMain() {
+		return
+	}
 	cfg := hx.ParseFlags()
 	if os.Getenv("C08_CHILD") != "" {
 		var changed []string
@@ -830,6 +836,7 @@ func main() {
 	}
 	out := hx.NewOut(cfg, "Obs.C08")
 	out.ShardMax = 100
+	coldDir = cfg.Out
 	if cfg.Replay != "" {
 		b, err := os.ReadFile(cfg.Replay)
 		if err != nil {
@@ -901,6 +908,14 @@ func main() {
 	out.Add(hx.Case{Coq: fmt.Sprintf("CRace %d", reports),
 		Desc: map[string]any{"kind": "race", "race_detector_enabled": raceEnabled, "reports": reports, "first_report": sample},
 		Tags: map[string]any{"class": "race", "kind": "race"}})
+	// 5. cold starts: fresh processes whose first library calls are concurrent
+	tCold := time.Now()
+	err = coldPhase(cfg, out)
+	out.Stats["ms_cold"] = int(time.Since(tCold).Milliseconds())
+	if err != nil {
+		fmt.Fprintln(os.Stderr, "c08:", err)
+		os.Exit(1)
+	}
 	if err := out.Flush(); err != nil {
 		panic(err)
 	}
@@ -918,6 +933,14 @@ func replay(out *hx.Out, raw []byte, origin string) {
 		return
 	}
 	switch d.Kind {
+	case "race":
+		// a cold start is run again in a fresh process; the report count of the long-lived
+		// load process has no input of its own to replay
+		var c coldCase
+		if json.Unmarshal(raw, &c) == nil && c.Phase == "cold" && c.Goroutines >= 1 && coldVariantIndex(c.Variant) >= 0 {
+			coldSeq++
+			emitCold(out, runCold(c, coldDir, 900+coldSeq))
+		}
 	case "history":
 		if d.Scenario != "" && d.Origin == "forced" {
 			h := runScenario(d.Scenario)
